@@ -1,99 +1,396 @@
 """C10 - nothing sent on an LLCP link exceeds the peer's announced MIU.
 
-L1: NfcVerif.Props.C10 - for every table of service access points with any queue contents,
-    every remote MIU, aggregation on/off: the information field of the frame returned by
-    collect() is at most the MIU unless a raw socket contributed; UI/I payloads accepted by
-    sendto()/send() respect the receiver's MIU.
-L2: random SAP tables / queue fillings built on a REAL LogicalLinkController (queues stuffed
-    with real PDU objects, partly through the public socket API), collect() called repeatedly
-    until the queues are empty; frame composition and residual queues compared with the Lean
-    model of collect().
-L3: oracle on the real code: len(encode(frame)) - 2 <= send-miu (no raw contribution), the
-    encoded frame decodes (real decoder) to exactly the collected PDUs in order, and
-    sendto()/send() refuse oversize payloads with EMSGSIZE.
+L1: NfcVerif.Props.C10 - for every table of service access points with any queue contents, every remote
+    MIU, secure data transfer off / on with any ICV size, aggregation on/off: the information field of the
+    frame returned by collect() is at most the MIU (a single encrypted UI / I PDU: MIU + ICV, by design of
+    collect()); collect() neither invents nor alters PDUs and encrypts every UI / I PDU exactly once; every
+    history of socket operations (sendto / send / connect / accept / bind / listen / service discovery /
+    DM / arbitrary receive-side changes / collect) keeps the queue invariant and transmits only such frames;
+    the aggregation loop terminates.
+L2: (a) random SAP tables / queue fillings built on a REAL LogicalLinkController (queues stuffed with real
+    PDU objects, partly through the public socket API), with a stub cipher for `llc.sec`;
+    (b) boundary sweeps (first PDU x second PDU x payload around the aggregation budget x MIU x ICV);
+    (c) random histories of operations through the public API (llc.bind / sendto / send / connect / listen /
+    accept / dispatch of incoming PDUs / setsockopt);
+    every single step - the operation's outcome and the complete state after it - is compared with the Lean
+    model (`run` of Model/CollectOps.lean), whole histories once more in one piece.
+L3: oracle on the real code: len(encode(frame)) - header <= send-miu (+ ICV for a single encrypted UI / I
+    PDU, never for an aggregate), payloads within the link / connection MIU announced by the peer, every
+    UI / I PDU encrypted exactly once, the encoded frame decodes (real decoder) to exactly the collected PDUs
+    and a real receiving controller (with the same cipher) hands exactly the collected PDUs, decrypted, in
+    order to its service access points; sendto()/send() refuse oversize payloads with EMSGSIZE.
 """
 import logging
 
-from common import Model, Infra
+from common import Model, exc_name
+from sims.collect_sec import FakeCipher, marks
 
 logging.disable(logging.CRITICAL)
 
 LEAN_TARGETS = ["NfcVerif.Props.C10", "drv_c10"]
 THEOREMS = [
     "NfcVerif.C10.collect_frame_bound",
+    "NfcVerif.C10.collect_frame_bound_nosec",
+    "NfcVerif.C10.collect_agf_bound",
     "NfcVerif.C10.collect_first_pdu_bound",
     "NfcVerif.C10.aggregate_bound",
     "NfcVerif.C10.sd_dequeue_bound",
     "NfcVerif.C10.ui_i_payload_bound",
+    "NfcVerif.C10.collect_preserves",
+    "NfcVerif.C10.collect_encrypts_once",
+    "NfcVerif.C10.history_frames_ok",
+    "NfcVerif.C10.sendto_ok_iff",
+    "NfcVerif.C10.send_ok_only_if",
+    "NfcVerif.C10.collect_aggregation_terminates",
+    "NfcVerif.C10.aggregation_transparent",
+    "NfcVerif.C10.agf_size_bridge",
 ]
 
-KIND = {"UI": "ui", "I": "i", "RR": "rr", "RNR": "rr", "DM": "dm", "FRMR": "frmr", "SNL": "snl"}
+KIND = {"SYMM": "symm", "PAX": "pax", "AGF": "agf", "UI": "ui", "CONNECT": "connect", "DISC": "disc", "CC": "cc",
+        "DM": "dm", "FRMR": "frmr", "SNL": "snl", "DPS": "dps", "I": "i", "RR": "rr", "RNR": "rnr"}
+MIUS = [128, 129, 130, 131, 132, 133, 135, 140, 200, 248, 255, 256, 500, 1021, 2174, 2175]
 
 
-def pdu_str(p):
-    return "%s.%d.%d.%d" % (KIND.get(p.name, "other"), p.header_size, len(p), 0)
+class World(object):
+    """one real LogicalLinkController plus what the harness knows independently of it"""
 
+    def __init__(self, ck, mods, miu, agf, icv, recv_miu=248):
+        self.ck, self.mods = ck, mods
+        self.nfc, self.llcmod, self.tco, self.pdu = mods
+        self.miu, self.agf, self.icv = miu, agf, icv
+        self.llc = self.llcmod.LogicalLinkController(miu=recv_miu, sec=False, agf=agf)
+        self.llc.cfg["send-miu"] = miu
+        self.llc.cfg["send-agf"] = agf
+        if icv is not None:
+            self.llc.sec = FakeCipher(icv)
+        self.conn = {}          # (local addr, peer addr) -> connection MIU announced by the peer, clamped to the link MIU
+        self.serial = 0
+        self.raw_used = False
 
-def pdus_str(q):
-    q = list(q)
-    return ",".join(pdu_str(p) for p in q) if q else "-"
+    # ---- payloads carry a serial number so that the order of PDUs is observable
+    def payload(self, n):
+        n = max(0, n)
+        self.serial += 1
+        s = self.serial
+        head = bytes([s // 40000 % 200, s // 200 % 200, s % 200])
+        return (head + bytes(max(0, n - 3))) if n >= 3 else bytes(n)
 
+    def sec_str(self):
+        return "-" if self.icv is None else str(self.icv)
 
-def render(llc, tco, llcmod):
-    """the real controller's SAP table in the line-protocol syntax"""
-    ents = []
-    for sap in llc.sap:
-        if sap is None:
-            continue
-        if isinstance(sap, llcmod.ServiceDiscovery):
-            req = ",".join("%d.%d" % (tid, len(name)) for tid, name in sap.sdreq) or "-"
-            ents.append("D;%d;%s;%s" % (len(sap.sdres), req, pdus_str(sap.dmpdu)))
+    # ---- rendering in the syntax of lean/Drv/C10.lean
+    def pdu_str(self, p):
+        name = getattr(p, "name", "?")
+        kind = KIND.get(name, "other")
+        icv = lim = 0
+        if name in ("UI", "I"):
+            d = bytes(p.data)
+            icv = marks(d)
+            plain = len(d) - icv
+            pid = d[0] * 40000 + d[1] * 200 + d[2] if plain >= 3 else 0
+            lim = self.miu if name == "UI" else self.conn.get((p.ssap, p.dsap), 0)
+        elif name in ("RR", "RNR"):
+            pid = p.nr
         else:
-            socks = []
-            for s in sap.sock_list:
-                if isinstance(s, tco.RawAccessPoint):
-                    socks.append("raw=" + pdus_str(s.send_queue))
-                elif isinstance(s, tco.LogicalDataLink):
-                    socks.append("ldl=" + pdus_str(s.send_queue))
-                else:
-                    flags = "".join("1" if b else "0" for b in (s.state.ESTABLISHED, s.mode.RECV_BUSY,
-                                                                  s.mode.RECV_BUSY_SENT))
-                    socks.append("dlc%s.%d.%d.%d.%d=%s" % (flags, s.recv_win, s.recv_cnt, s.recv_ack, s.recv_confs,
-                                                           pdus_str(s.send_queue)))
-            ents.append(";".join(["S"] + socks + ["L=" + pdus_str(sap.send_list)]))
-    return "|".join(ents) if ents else "-"
+            pid = p.dsap * 64 + p.ssap
+        return "%s.%d.%d.%d.%d.%d" % (kind, p.header_size, len(p), pid, icv, lim)
+
+    def pdus_str(self, q, sep=","):
+        q = list(q)
+        return sep.join(self.pdu_str(p) for p in q) if q else "-"
+
+    def sock_str(self, s):
+        tco = self.tco
+        if isinstance(s, tco.RawAccessPoint):
+            return "raw=" + self.pdus_str(s.send_queue)
+        if isinstance(s, tco.LogicalDataLink):
+            return "ldl.%d=%s" % (s.send_miu, self.pdus_str(s.send_queue))
+        return "dlc.%d.%d%d.%d.%d.%d.%d.%d.%d.%d.%d=%s" % (
+            s.state.value, 1 if s.mode.RECV_BUSY else 0, 1 if s.mode.RECV_BUSY_SENT else 0, s.recv_win, s.recv_cnt,
+            s.recv_ack, s.recv_confs, s.send_miu, s.send_win or 0, s.send_cnt, s.send_ack, self.pdus_str(s.send_queue))
+
+    def render(self):
+        ents = []
+        for sap in self.llc.sap:
+            if sap is None:
+                continue
+            if isinstance(sap, self.llcmod.ServiceDiscovery):
+                res = ",".join(str(tid * 256 + a) for tid, a in sap.sdres) or "-"
+                req = ",".join("%d.%d" % (tid, len(name)) for tid, name in sap.sdreq) or "-"
+                ents.append("D;%s;%s;%s" % (res, req, self.pdus_str(sap.dmpdu)))
+            else:
+                ents.append(";".join(["S"] + [self.sock_str(s) for s in sap.sock_list]
+                                     + ["L=" + self.pdus_str(sap.send_list)]))
+        return "|".join(ents) if ents else "-"
+
+    def pos(self, addr):
+        """position of llc.sap[addr] among the non-empty entries"""
+        return sum(1 for x in self.llc.sap[:addr] if x is not None)
+
+    def sockpos(self, s):
+        return self.pos(s.addr), list(self.llc.sap[s.addr].sock_list).index(s)
+
+    def raw_pending(self):
+        n = 0
+        for sap in self.llc.sap:
+            if sap is not None and not isinstance(sap, self.llcmod.ServiceDiscovery):
+                for s in sap.sock_list:
+                    if isinstance(s, self.tco.RawAccessPoint):
+                        n += len(s.send_queue)
+        return n
+
+    def frame_str(self, frame):
+        if frame is None:
+            return "frame:none", []
+        if frame.name == "AGF":
+            subs = list(frame)
+            return "frame:agf:%s:info=%d" % (self.pdus_str(subs, "+"), len(frame) - 2), subs
+        return "frame:single:%s:info=%d" % (self.pdu_str(frame), len(frame) - frame.header_size), [frame]
 
 
-def build(rng, nfc, miu, agf, profile):
-    """a real controller with randomly filled queues"""
-    import nfc.llcp.llc as llcmod
-    import nfc.llcp.tco as tco
-    import nfc.llcp.pdu as pdu
-    llc = llcmod.LogicalLinkController(miu=rng.choice([128, 248, 1000, 2175]), sec=False, agf=agf)
-    llc.cfg["send-miu"] = miu
-    llc.cfg["send-agf"] = agf
-    raw_used = False
+def quiet(state):
+    """nothing left to send"""
+    for ent in state.split("|"):
+        if ent.startswith("D;"):
+            if ent != "D;-;-;-":
+                return False
+        else:
+            for part in ent.split(";")[1:]:
+                if not part.endswith("=-"):
+                    return False
+                if part.startswith("dlc.4."):
+                    f = part.split(".")
+                    if f[2][0] != f[2][1] or int(f[6]) != 0:      # busy state to report / confirmations to acknowledge
+                        return False
+    return True
 
-    def payload(limit):
+
+class Run(object):
+    """collects the requests for the model and runs the oracles"""
+
+    def __init__(self, ck, mods):
+        self.ck, self.mods = ck, mods
+        self.nfc, self.llcmod, self.tco, self.pdu = mods
+        self.reqs = {}          # tie name -> [(line, expected, context)]
+
+    def req(self, tie, w, before, ops, expected):
+        line = "run %d %s %d %s %s" % (w.miu, w.sec_str(), 1 if w.agf else 0, before, ops)
+        self.reqs.setdefault(tie, []).append((line, expected))
+
+    # ------------------------------------------------------------------ one collect() on the real controller
+    def collect(self, w, tie, bucket):
+        """returns (outcome string, frame) ; runs the L3 oracle; records the model request"""
+        ck, pdu = self.ck, self.pdu
+        before = w.render()
+        raw_before = w.raw_pending()
+        ctx = {"state": before, "miu": w.miu, "agf": w.agf, "icv_size": w.icv}
+        try:
+            frame = w.llc.collect()
+        except Exception as e:  # noqa
+            ck.fail("collect-raises-" + exc_name(e), "collect() raised %r" % (e,), ctx)
+            return "exc:" + exc_name(e), None
+        if frame is not None and not isinstance(frame, pdu.ProtocolDataUnit):
+            ck.fail("collect-returns-non-pdu", "collect() returned %r" % (frame,), ctx)
+            return "ret:%r" % (frame,), None
+        try:
+            out, subs = w.frame_str(frame)
+            after = w.render()
+        except Exception as e:  # noqa
+            ck.fail("collected-frame-unusable-" + exc_name(e), "collect() returned a frame that can not be inspected: %r" % (e,), ctx)
+            return "exc:" + exc_name(e), None
+        self.req(tie, w, before, "collect", out + " # " + after)
+        raw_contrib = raw_before != w.raw_pending()
+        icv = w.icv or 0
+        nontrivial = False
+        if frame is not None:
+            try:
+                self.oracle(w, frame, subs, raw_contrib, ctx)
+            except Exception as e:  # noqa
+                ck.fail("frame-oracle-raises-" + exc_name(e), "inspecting the collected frame raised %r" % (e,), ctx)
+            info = len(frame) - (2 if frame.name == "AGF" else frame.header_size)
+            nontrivial = len(subs) >= 2 or info >= w.miu - 8 - icv
+            if frame.name == "AGF":
+                ck.count("aggregates")
+            for p in subs:
+                ck.count("sent " + p.name)
+        ck.case((before, w.miu, w.agf, w.icv), nontrivial, bucket,
+                sample={"request": "run %d %s %d %s collect" % (w.miu, w.sec_str(), 1 if w.agf else 0, before),
+                        "impl": out} if len(ck.samples) < 3 and nontrivial else None)
+        return out, frame
+
+    def oracle(self, w, frame, subs, raw_contrib, ctx):
+        ck, pdu = self.ck, self.pdu
+        miu, icv = w.miu, (w.icv or 0)
+        sec = "sec:" if w.icv is not None else ""
+        enc = frame.encode()
+        ctx = dict(ctx, frame=enc.hex())
+        for p in subs:
+            if len(p) != len(p.encode()):
+                ck.fail("pdu-len-differs-from-encoding", "%s: len %d, encoded %d" % (p.name, len(p), len(p.encode())), ctx)
+        is_agf = frame.name == "AGF"
+        infolen = len(enc) - (2 if is_agf else frame.header_size)
+        names = "+".join("%s(%d)" % (p.name, len(p)) for p in subs)
+        shape = "+".join(p.name for p in subs[:4])
+        if not raw_contrib:
+            # a single encrypted UI / I PDU may carry its ICV on top (collect() asks for it with icv_size=0 on
+            # purpose); any other frame, an aggregate in particular, has to stay within the Link MIU
+            slack = icv if (not is_agf and frame.name in ("UI", "I")) else 0
+            if infolen > miu + slack:
+                ck.fail("frame-exceeds-miu:" + sec + shape, "information field %d > MIU %d%s: %s"
+                        % (infolen, miu, " (+%d ICV)" % slack if slack else "", names), ctx)
+            for p in subs:
+                if p.name in ("UI", "I"):
+                    k = marks(p.data)
+                    plain = len(p.data) - k
+                    if plain > miu:
+                        ck.fail("payload-exceeds-miu", "%s payload %d > Link MIU %d" % (p.name, plain, miu), ctx)
+                    if p.name == "I" and (p.ssap, p.dsap) in w.conn and plain > w.conn[(p.ssap, p.dsap)]:
+                        ck.fail("i-payload-exceeds-connection-miu", "I PDU %d -> %d carries %d octets, the peer announced "
+                                "a connection MIU of %d (link MIU %d)" % (p.ssap, p.dsap, plain, w.conn[(p.ssap, p.dsap)], miu), ctx)
+        # every UI / I PDU passes encrypt() exactly once, nothing else is touched
+        for p in subs:
+            if p.name in ("UI", "I") and w.icv:
+                k = marks(p.data)
+                if k != icv:
+                    ck.fail("ui-i-not-encrypted-once", "%s PDU carries %d ICV octets instead of %d" % (p.name, k, icv), ctx)
+        try:
+            dec = pdu.decode(enc)
+            got = list(dec) if dec.name == "AGF" else [dec]
+            if [x.encode() for x in got] != [x.encode() for x in subs]:
+                ck.fail("aggregation-not-transparent", "decoded aggregate differs from collected PDUs", ctx)
+        except pdu.Error as e:
+            ck.fail("collected-frame-undecodable", "decode raised %r" % (e,), ctx)
+            return
+        # the receiving controller must hand exactly these PDUs (decrypted), in this order, to its SAPs
+        # (with debug logging switched on and off: logging must not consume anything)
+        want = []
+        for x in subs:
+            if x.name == "SYMM" or (x.name == "CONNECT" and x.dsap == 1):
+                continue
+            e = x.encode()
+            want.append(e[:len(e) - icv] if (x.name in ("UI", "I") and icv) else e)
+        for debug_on in (True, False):
+            try:
+                seen = self.receive(pdu.decode(enc), debug_on, w.icv)
+            except Exception as e:  # noqa
+                ck.fail("receiver-raises-" + exc_name(e), "dispatch() of the collected frame raised %r (debug logging %s)"
+                        % (e, "on" if debug_on else "off"), dict(ctx, debug_logging=debug_on))
+                break
+            if seen != want:
+                ck.fail("aggregate-not-dispatched-in-order" if is_agf else "frame-not-dispatched",
+                        "receiver dispatched %d of %d collected PDUs%s (debug logging %s)"
+                        % (len(seen), len(want), "" if len(seen) != len(want) else ", different octets",
+                           "on" if debug_on else "off"), dict(ctx, debug_logging=debug_on))
+                break
+
+    def receive(self, rcvd, debug_on, icv):
+        llcmod = self.llcmod
+        seen = []
+
+        class Recorder(object):
+            """stands in for every service access point of the receiving controller"""
+            mode = 1
+
+            def __init__(self):
+                self.dmpdu = []
+
+            def enqueue(self, p):
+                seen.append(p.encode())
+
+        rx = llcmod.LogicalLinkController(sec=False)
+        rx.sap = [Recorder() for _ in range(64)]
+        rx.snl = {}
+        if icv is not None:
+            rx.sec = FakeCipher(icv)
+        logger = logging.getLogger("nfc.llcp.llc")
+        old_level, old_disable = logger.level, logging.root.manager.disable
+        if debug_on:
+            logging.disable(logging.NOTSET)
+            logger.setLevel(logging.DEBUG)
+            if not logger.handlers:
+                logger.addHandler(logging.NullHandler())
+        try:
+            rx.dispatch(rcvd)
+        finally:
+            logger.setLevel(old_level)
+            logging.disable(old_disable)
+        return seen
+
+    def drain(self, w, tie, bucket, rounds=40):
+        last = None
+        for _ in range(rounds):
+            state = w.render()
+            if quiet(state):
+                return
+            out, frame = self.collect(w, tie, bucket)
+            if frame is None:
+                return
+            if (state, out) == last:
+                # nothing was consumed and the same frame came out again: a service discovery request that does not
+                # fit the MIU stays queued for ever (an empty SNL PDU is sent in every frame) - no new information
+                self.ck.count("stopped draining: a queued item never fits")
+                return
+            last = (w.render(), out) if w.render() == state else None
+        self.ck.count("not drained in %d rounds" % rounds)
+
+    # ------------------------------------------------------------------ compare with the model
+    def settle(self, model):
+        ck = self.ck
+        for tie, reqs in self.reqs.items():
+            replies = model.ask_many([r[0] for r in reqs])
+            dis = 0
+            for (line, real), rep in zip(reqs, replies):
+                if rep != real:
+                    dis += 1
+                    ck.fail("tie:" + tie, "model %r, implementation %r" % (_diff(rep, real)),
+                            {"request": line, "model": rep, "impl": real})
+            ck.tie(tie, cases=len(reqs), disagreements=dis)
+
+
+def _diff(a, b):
+    """the parts of two long replies that differ"""
+    if len(a) < 200 and len(b) < 200:
+        return a, b
+    i = 0
+    while i < min(len(a), len(b)) and a[i] == b[i]:
+        i += 1
+    i = max(0, i - 60)
+    return "..." + a[i:i + 240], "..." + b[i:i + 240]
+
+
+# ---------------------------------------------------------------------- (a) random queue fillings
+def build(rng, w, profile):
+    """fill the queues of a real controller at random (partly through the public API)"""
+    nfc, llcmod, tco, pdu = w.mods
+    llc, miu, icv = w.llc, w.miu, (w.icv or 0)
+
+    def size(limit):
         r = rng.random()
-        if r < 0.25:
-            n = rng.choice([limit, limit - 1, limit - 2, limit - 3, limit - 4, limit - 5, limit - 6, limit - 7])
+        if r < 0.3:
+            n = limit - rng.randrange(0, 8 + 2 * icv)
         elif r < 0.5:
             n = rng.randrange(0, 12)
+        elif r < 0.6:
+            n = miu - rng.randrange(0, 60)
         else:
             n = rng.randrange(0, limit + 1)
-        return bytes(max(0, min(n, limit)))
+        return max(0, min(n, limit))
 
     # pending service discovery
     if rng.random() < profile["sd"]:
         sd = llc.sap[1]
-        for _ in range(rng.choice([0, 1, 2, 5, 30, 33, 40, 60]) if rng.random() < 0.7 else 0):
+        nres = rng.choice([0, 1, 2, 5, miu // 4 - 1, miu // 4, miu // 4 + 1, 30, 33, 40, 60]) if rng.random() < 0.7 else 0
+        for _ in range(min(nres, 600)):
             sd.sdres.append((rng.randrange(256), rng.randrange(64)))
+        room = miu - 4 * min(nres, miu // 4)
         for _ in range(rng.choice([0, 0, 1, 2, 4, 8])):
-            name = b"urn:nfc:sn:" + bytes(rng.randrange(97, 123) for _ in range(rng.choice([1, 3, 10, 40, 100, 200])))
-            sd.sdreq.append((rng.randrange(256), name[:255 - 1]))
+            # the SDREQ TLV carries tid + name in at most 255 octets: names of up to 254 octets
+            ln = rng.choice([1, 3, 10, 40, 100, 200, 243, max(1, room - 3 - 11 + rng.randrange(-2, 3)),
+                             max(1, miu - 3 - 11 + rng.randrange(-2, 3))])
+            name = b"urn:nfc:sn:" + bytes(rng.randrange(97, 123) for _ in range(max(1, min(ln, 243))))
+            sd.sdreq.append((rng.randrange(256), name))
         for _ in range(rng.choice([0, 0, 1, 2])):
-            sd.dmpdu.append(pdu.DisconnectedMode(rng.randrange(2, 64), rng.randrange(2, 64), rng.randrange(0, 4)))
+            sd.dmpdu.append(pdu.DisconnectedMode(rng.randrange(2, 64), 1, rng.choice([2, 0x10])))
     # DM PDUs waiting at SAP 0
     for _ in range(rng.choice([0, 0, 0, 1, 2])):
         llc.sap[0].send(pdu.DisconnectedMode(rng.randrange(2, 64), 0, 2))
@@ -104,17 +401,23 @@ def build(rng, nfc, miu, agf, profile):
         kind = rng.choices(["ldl", "dlc", "raw"], weights=[4, 5, profile["raw"]])[0]
         for _ in range(rng.choice([1, 1, 1, 2, 3])):
             if kind == "raw":
-                raw_used = True
+                w.raw_used = True
                 s = tco.RawAccessPoint(recv_miu=128)
                 s.bind(a)
                 for _ in range(rng.randrange(0, 4)):
                     k = rng.random()
-                    if k < 0.5:
-                        s.send_queue.append(pdu.UnnumberedInformation(rng.randrange(64), a, data=bytes(rng.randrange(0, miu + 40))))
-                    elif k < 0.8:
+                    if k < 0.4:
+                        s.send_queue.append(pdu.UnnumberedInformation(rng.randrange(64), a, data=w.payload(rng.randrange(0, miu + 40))))
+                    elif k < 0.55:
                         s.send_queue.append(pdu.Symmetry())
+                    elif k < 0.65:
+                        s.send_queue.append(pdu.ParameterExchange(version=0x13, miux=rng.randrange(0, 0x7FF), lto=100))
+                    elif k < 0.75:
+                        s.send_queue.append(pdu.DataProtectionSetup(0, 0, ecpk=bytes(64), rn=bytes(8)))
+                    elif k < 0.8:
+                        s.send_queue.append(pdu.UnknownProtocolDataUnit(0b1011, rng.randrange(64), a, bytes(rng.randrange(0, 30))))
                     else:
-                        s.send_queue.append(pdu.Information(rng.randrange(64), a, 0, 0, data=bytes(rng.randrange(0, miu + 40))))
+                        s.send_queue.append(pdu.Information(rng.randrange(64), a, 0, 0, data=w.payload(rng.randrange(0, miu + 40))))
             elif kind == "ldl":
                 s = tco.LogicalDataLink(recv_miu=128)
                 s.bind(a)
@@ -122,24 +425,25 @@ def build(rng, nfc, miu, agf, profile):
                 for _ in range(rng.randrange(0, 5)):
                     if rng.random() < 0.7:
                         try:
-                            s.sendto(payload(miu), rng.randrange(2, 64), nfc.llcp.MSG_DONTWAIT)   # public API path
+                            s.sendto(w.payload(size(miu)), rng.randrange(2, 64), nfc.llcp.MSG_DONTWAIT)   # public API path
                         except nfc.llcp.Error:
                             pass
                     else:
-                        s.send_queue.append(pdu.UnnumberedInformation(rng.randrange(64), a, data=payload(miu)))
+                        s.send_queue.append(pdu.UnnumberedInformation(rng.randrange(64), a, data=w.payload(size(miu))))
             else:
                 s = tco.DataLinkConnection(recv_miu=128, recv_win=rng.randrange(1, 16))
                 s.bind(a)
-                s.peer = rng.randrange(2, 64)
+                s.peer = rng.choice([x for x in range(2, 64) if (a, x) not in w.conn])     # one connection per address pair
                 cmiu = rng.choice([128, 128, miu, min(miu, 200), max(128, miu - 3)])
                 s.send_miu = min(cmiu, miu)
+                w.conn[(a, s.peer)] = s.send_miu
                 est = rng.random() < 0.8
                 if est:
                     s.state.ESTABLISHED = True
                     s.send_win = rng.randrange(1, 16)
                     for _ in range(rng.randrange(0, 4)):
                         try:
-                            s.send(payload(s.send_miu), nfc.llcp.MSG_DONTWAIT)            # public API path
+                            s.send(w.payload(size(s.send_miu)), nfc.llcp.MSG_DONTWAIT)            # public API path
                         except nfc.llcp.Error:
                             break
                     if rng.random() < 0.3:
@@ -159,6 +463,7 @@ def build(rng, nfc, miu, agf, profile):
                     if rng.random() < 0.1:
                         s.send_queue.append(pdu.Disconnect(s.peer, a))
                 else:
+                    s.state.value = rng.choice([0, 1, 2, 3, 5, 6])
                     k = rng.random()
                     if k < 0.4:
                         sn = b"urn:nfc:sn:" + bytes(rng.randrange(97, 123) for _ in range(rng.choice([2, 20, 100, 140])))
@@ -166,7 +471,8 @@ def build(rng, nfc, miu, agf, profile):
                         s.send_queue.append(pdu.Connect(s.peer, a, miu=rng.choice([128, 500, 2175]),
                                                         rw=rng.choice([0, 1, 2, 15]), sn=sn))
                     elif k < 0.6:
-                        s.send_queue.append(pdu.ConnectionComplete(s.peer, a, miu=rng.choice([128, 500]), rw=rng.randrange(1, 16)))
+                        s.send_queue.append(pdu.ConnectionComplete(s.peer, a, miu=rng.choice([128, 128, 500, 2175]),
+                                                                   rw=rng.choice([0, 1, 1, 7, 15])))
                     elif k < 0.8:
                         s.send_queue.append(pdu.DisconnectedMode(s.peer, a, 0))
             sap.sock_list.append(s)
@@ -174,7 +480,728 @@ def build(rng, nfc, miu, agf, profile):
                 break
         for _ in range(rng.choice([0, 0, 0, 1, 2])):
             sap.send(pdu.DisconnectedMode(rng.randrange(2, 64), a, 1))
-    return llc, raw_used
+
+
+def random_states(run, mods, rng, n):
+    ck = run.ck
+    for _ in range(n):
+        miu = rng.choice(MIUS) if rng.random() < 0.7 else rng.randrange(128, 2176)
+        agf = rng.random() < 0.75
+        icv = rng.choice([None, None, None, 4, 4, 4, 4, 1, 8, 16, 0])
+        profile = {"sd": 0.5, "saps": rng.choice([0, 1, 2, 3, 6, 12]), "raw": rng.choice([0, 0, 0, 1, 3])}
+        w = None
+        try:
+            w = World(ck, mods, miu, agf, icv, recv_miu=rng.choice([128, 248, 1000, 2175]))
+            build(rng, w, profile)
+        except Exception as e:  # noqa
+            ck.fail("state-construction-raises-" + exc_name(e), "filling the queues through the socket API raised %r" % (e,),
+                    {"miu": miu, "agf": agf, "icv_size": icv, "state": _safe(w.render) if w else None, "where": _where(e)})
+            continue
+        bucket = ("sec" if icv is not None else "plain") + ("/agf" if agf else "/noagf")
+        try:
+            run.drain(w, "collect()/dequeue()/sendack()/encrypt() model vs real LogicalLinkController (random queue fillings)", bucket)
+        except Exception as e:  # noqa
+            ck.fail("exploration-raises-" + exc_name(e), "draining the queues raised %r" % (e,),
+                    {"miu": miu, "agf": agf, "icv_size": icv, "state": _safe(w.render), "where": _where(e)})
+
+
+def _where(e):
+    import traceback
+    tb = traceback.extract_tb(e.__traceback__)
+    return ["%s:%d %s" % (f.filename.split("/")[-1], f.lineno, f.name) for f in tb[-4:]]
+
+
+def _safe(f):
+    try:
+        return f()
+    except Exception as e:  # noqa
+        return "unrenderable: %r" % (e,)
+
+
+# ---------------------------------------------------------------------- (b) boundary sweeps
+def sweep(run, mods, rng, thorough):
+    """first PDU x second PDU x payload around the aggregation budget x MIU x ICV"""
+    ck = run.ck
+    nfc, llcmod, tco, pdu = mods
+    tie = "collect() model vs real LogicalLinkController (aggregation budget sweeps)"
+    mius = [128, 131, 2175] + ([129, 130, 248, 1021] if thorough else [rng.choice([129, 130, 133, 248, 255, 1021, 2174])])
+    icvs = [None, 4] + ([1, 16] if thorough else [rng.choice([1, 8, 16])])
+    firsts = ["ui", "i", "snl", "dm", "rr", "cc"]
+    seconds = ["ui", "i", "connect", "snl"]
+    for miu in mius:
+        for icv in icvs:
+            k = icv or 0
+            for first in firsts:
+                for second in seconds:
+                    if first == "snl" and second == "snl":
+                        continue
+                    if not thorough and rng.random() < 0.35:
+                        continue
+                    n1 = rng.choice([0, 3, 10, 10, 40])
+                    def one(delta, miu=miu, icv=icv, k=k, first=first, second=second, n1=n1):
+                        w = World(ck, mods, miu, True, icv)
+                        llc = w.llc
+                        ldl = tco.LogicalDataLink(recv_miu=128)
+                        llc.sap[32] = llcmod.ServiceAccessPoint(32, llc)
+                        ldl.bind(32)
+                        ldl.send_miu = miu
+                        llc.sap[32].sock_list.append(ldl)
+
+                        def dlc(addr, peer, first_socket=True):
+                            d = tco.DataLinkConnection(recv_miu=128, recv_win=2)
+                            if llc.sap[addr] is None:
+                                llc.sap[addr] = llcmod.ServiceAccessPoint(addr, llc)
+                            d.bind(addr)
+                            d.peer = peer
+                            d.send_miu, d.send_win = miu, 8
+                            d.state.ESTABLISHED = True
+                            w.conn[(addr, peer)] = miu
+                            llc.sap[addr].sock_list.append(d)
+                            return d
+                        # ---- first PDU, `used` = its octets inside the aggregate (without the length field)
+                        if first == "ui":
+                            ldl.send_queue.append(pdu.UnnumberedInformation(16, 32, w.payload(n1)))
+                            used = 2 + n1 + k
+                        elif first == "i":
+                            d0 = dlc(33, 17)
+                            d0.send(w.payload(n1), nfc.llcp.MSG_DONTWAIT)
+                            used = 3 + n1 + k
+                        elif first == "snl":
+                            llc.sap[1].sdres.extend((i, 16) for i in range(3))
+                            used = 2 + 12
+                        elif first == "dm":
+                            llc.sap[0].send(pdu.DisconnectedMode(20, 0, 2))
+                            used = 3
+                        elif first == "rr":
+                            d0 = dlc(33, 17)
+                            d0.recv_cnt, d0.recv_confs = 1, 1          # voluntary acknowledgement pending
+                            used = 3
+                        else:
+                            d0 = tco.DataLinkConnection(recv_miu=128, recv_win=2)
+                            llc.sap[33] = llcmod.ServiceAccessPoint(33, llc)
+                            d0.bind(33)
+                            d0.state.LISTEN = True
+                            llc.sap[33].sock_list.append(d0)
+                            cc = pdu.ConnectionComplete(17, 33, miu=rng.choice([128, 500]), rw=rng.choice([1, 5]))
+                            d0.send_queue.append(cc)
+                            used = len(cc)
+                        # ---- second PDU sized to the octet around what is left: 2 (AGF) + 2 + used + 2 + second <= miu
+                        room = miu - 2 - 2 - used - 2
+                        if second == "ui":
+                            n2 = room - 2 - k + delta
+                            if n2 < 0:
+                                return
+                            ldl.send_queue.append(pdu.UnnumberedInformation(18, 32, w.payload(n2)))
+                        elif second == "i":
+                            n2 = room - 3 - k + delta
+                            if n2 < 0:
+                                return
+                            d1 = dlc(34, 19)
+                            try:
+                                d1.send(w.payload(n2), nfc.llcp.MSG_DONTWAIT)
+                            except nfc.llcp.Error:
+                                return
+                        elif second == "connect":
+                            # a CONNECT by name of the matching length (never encrypted): 2 + MIUX 4 + SN 2 + n2
+                            n2 = room - 8 + delta
+                            if n2 < 1 or n2 > 255:
+                                return
+                            d1 = tco.DataLinkConnection(recv_miu=128, recv_win=1)
+                            llc.sap[35] = llcmod.ServiceAccessPoint(35, llc)
+                            d1.bind(35)
+                            d1.state.CONNECT = True
+                            llc.sap[35].sock_list.append(d1)
+                            d1.send_queue.append(pdu.Connect(1, 35, miu=2175, rw=1, sn=bytes(97 + i % 26 for i in range(n2))))
+                        else:
+                            # an answer and a request that fill the remaining octets: 2 + 4 + 3 + n2
+                            n2 = room - 9 + delta
+                            if n2 < 1 or n2 > 254:
+                                return
+                            llc.sap[1].sdreq.append((7, bytes(97 + i % 26 for i in range(n2))))
+                            llc.sap[1].sdres.append((9, 20))
+                        bucket = "sweep " + ("sec" if icv is not None else "plain")
+                        run.drain(w, tie, bucket, rounds=6)
+                    for delta in range(-3 - k, 4):
+                        try:
+                            one(delta)
+                        except Exception as e:  # noqa
+                            ck.fail("exploration-raises-" + exc_name(e), "building or draining a sweep state raised %r" % (e,),
+                                    {"miu": miu, "icv_size": icv, "delta": delta, "where": _where(e)})
+
+
+def sweep_tail(run, mods, rng, thorough):
+    """a first UI / I PDU sized so that it plus a tail of small PDUs - voluntary acknowledgements of several
+    connections, DM PDUs from send lists, a one-answer SNL - ends -6..+3 octets around the MIU: the budget
+    arithmetic of the second aggregation loop and of the acknowledgement pass at every boundary"""
+    ck = run.ck
+    nfc, llcmod, tco, pdu = mods
+    tie = "collect() model vs real LogicalLinkController (aggregation budget sweeps)"
+    mius = [128, 130] + ([129, 131, 255, 2175] if thorough else [rng.choice([129, 131, 133, 255, 1021, 2175])])
+    icvs = [None, 4] + ([16] if thorough else [])
+    for miu in mius:
+        for icv in icvs:
+            k = icv or 0
+            for acks in (0, 1, 2, 3, 4):
+                for dms in (0, 1, 2):
+                    for snl in (0, 1):
+                        if acks + dms + snl == 0 or (not thorough and rng.random() < 0.4):
+                            continue
+                        first = rng.choice(["ui", "i"])
+                        tail = 5 * acks + 5 * dms + 8 * snl
+                        def one(delta, miu=miu, icv=icv, k=k, first=first, tail=tail, acks=acks, dms=dms, snl=snl):
+                            hdr = 2 if first == "ui" else 3
+                            n = miu + delta - 2 - 2 - hdr - k - tail
+                            if n < 0:
+                                return
+                            w = World(ck, mods, miu, True, icv)
+                            llc = w.llc
+                            sap = llc.sap[32] = llcmod.ServiceAccessPoint(32, llc)
+                            if first == "ui":
+                                s = tco.LogicalDataLink(recv_miu=128)
+                                s.bind(32)
+                                s.send_miu = miu
+                                s.send_queue.append(pdu.UnnumberedInformation(16, 32, w.payload(n)))
+                            else:
+                                s = tco.DataLinkConnection(recv_miu=128, recv_win=2)
+                                s.bind(32)
+                                s.peer, s.send_miu, s.send_win = 16, miu, 8
+                                s.state.ESTABLISHED = True
+                                w.conn[(32, 16)] = miu
+                                s.send_queue.append(pdu.Information(16, 32, 0, 0, w.payload(n)))
+                                s.send_cnt = 1
+                            sap.sock_list.append(s)
+                            for i in range(dms):
+                                sap.send(pdu.DisconnectedMode(20 + i, 32, 1))
+                            if snl:
+                                llc.sap[1].sdres.append((5, 16))
+                            for i in range(acks):
+                                a = 40 + i
+                                d = tco.DataLinkConnection(recv_miu=128, recv_win=2)
+                                llc.sap[a] = llcmod.ServiceAccessPoint(a, llc)
+                                d.bind(a)
+                                d.peer, d.send_miu, d.send_win = 10 + i, 128, 1
+                                d.state.ESTABLISHED = True
+                                d.recv_cnt, d.recv_confs = 1, 1      # one I PDU received and read: voluntary ack pending
+                                if rng.random() < 0.3:
+                                    d.mode.RECV_BUSY = d.mode.RECV_BUSY_SENT = True
+                                llc.sap[a].sock_list.append(d)
+                            run.drain(w, tie, "sweep tail " + ("sec" if icv is not None else "plain"), rounds=8)
+                        for delta in range(-6, 4):
+                            try:
+                                one(delta)
+                            except Exception as e:  # noqa
+                                ck.fail("exploration-raises-" + exc_name(e), "building or draining a sweep state raised %r" % (e,),
+                                        {"miu": miu, "icv_size": icv, "delta": delta, "where": _where(e)})
+
+
+def sweep_snl(run, mods, rng, thorough):
+    """service discovery batching: answers around MIU/4, requests whose names end -3..+3 octets around what the
+    answers left, as the only PDU and behind a first PDU (aggregation on / off)"""
+    ck = run.ck
+    nfc, llcmod, tco, pdu = mods
+    tie = "collect() model vs real LogicalLinkController (aggregation budget sweeps)"
+    mius = [128, 130, 131] + ([129, 133, 248, 2175] if thorough else [rng.choice([129, 133, 248, 1021, 2175])])
+    for miu in mius:
+        for agf in (True, False):
+            for lead in (None, "ui", "dm"):
+                for nres in sorted({0, 1, miu // 4 - 1, miu // 4, miu // 4 + 1, 33, 40}):
+                    if not thorough and rng.random() < 0.3:
+                        continue
+                    for delta in range(-3, 4):
+                        def one():
+                            w = World(ck, mods, miu, agf, None)
+                            llc = w.llc
+                            used = 0
+                            if lead == "ui":
+                                s = tco.LogicalDataLink(recv_miu=128)
+                                llc.sap[32] = llcmod.ServiceAccessPoint(32, llc)
+                                s.bind(32)
+                                s.send_miu = miu
+                                n = rng.choice([0, 5, 20])
+                                s.send_queue.append(pdu.UnnumberedInformation(16, 32, w.payload(n)))
+                                llc.sap[32].sock_list.append(s)
+                                used = 2 + 2 + n + 2 + 2         # aggregate header, length + UI, length + SNL header
+                            elif lead == "dm":
+                                llc.sap[0].send(pdu.DisconnectedMode(20, 0, 2))
+                                used = 2 + 2 + 3 + 2 + 2
+                            for i in range(nres):
+                                llc.sap[1].sdres.append((i % 256, 16 + i % 16))
+                            room = miu - used - 4 * min(nres, max(0, (miu - used)) // 4)
+                            # two requests: the first fills the room to `delta`, the second is short
+                            ln = room - 3 + delta
+                            if 1 <= ln <= 254:
+                                llc.sap[1].sdreq.append((1, bytes(97 + i % 26 for i in range(ln))))
+                            llc.sap[1].sdreq.append((2, b"urn:nfc:sn:x"))
+                            if rng.random() < 0.5:
+                                llc.sap[1].sdreq.append((3, bytes(97 + i % 26 for i in range(rng.choice([1, 100, 254])))))
+                            run.drain(w, tie, "sweep snl", rounds=5)
+                        try:
+                            one()
+                        except Exception as e:  # noqa
+                            ck.fail("exploration-raises-" + exc_name(e), "building or draining a sweep state raised %r" % (e,),
+                                    {"miu": miu, "nres": nres, "delta": delta, "where": _where(e)})
+
+
+# ---------------------------------------------------------------------- (c) histories through the public API
+class History(object):
+    def __init__(self, run, mods, rng, miu, agf, icv):
+        self.run, self.rng = run, rng
+        self.ck = run.ck
+        self.nfc, self.llcmod, self.tco, self.pdu = mods
+        self.w = World(run.ck, mods, miu, agf, icv, recv_miu=rng.choice([128, 248, 2175]))
+        self.tie = "socket operations + collect() model vs real LogicalLinkController (histories, every step)"
+        self.ldls, self.dlcs, self.listeners, self.strays = [], [], [], []
+        self.ops = []           # the whole history for the one-piece comparison
+        self.outcomes = []
+        self.initial = self.w.render()
+        self.last = self.initial    # state after the last recorded step (the one-piece comparison needs an unbroken chain)
+        self.chain = True
+        self.broken = False
+        self.peers = list(range(2, 64))
+        rng.shuffle(self.peers)
+
+    # one real operation; `opf` builds the model operation from the state after it (receive-side changes are
+    # reported to the model, not predicted by it)
+    def step(self, name, fn, opf, boundary=False):
+        w, ck = self.w, self.ck
+        before = w.render()
+        if before != self.last:
+            self.chain = False
+        ctx = {"state": before, "miu": w.miu, "agf": w.agf, "icv_size": w.icv, "operation": name}
+        try:
+            r = fn()
+            out = "ok" if (r is True or r is None) else "ret:%r" % (r,)
+        except self.nfc.llcp.Error as e:
+            out = "exc:" + exc_name(e)
+        except Exception as e:  # noqa
+            out = "exc:" + exc_name(e)
+            ck.fail("api-raises-%s:%s" % (exc_name(e), name.split("(")[0]), "%s raised %r" % (name, e), ctx)
+            self.broken = True
+        try:
+            after = w.render()
+            op = opf()
+        except Exception as e:  # noqa
+            ck.fail("state-unusable-after:%s" % name.split("(")[0], "%s left a state that can not be inspected: %r" % (name, e), ctx)
+            self.broken = True
+            return out
+        self.run.req(self.tie, w, before, op, out + " # " + after)
+        self.ops.append(op)
+        self.outcomes.append(out)
+        self.last = after
+        ck.case((before, op, w.miu, w.icv), boundary, "op " + name.split("(")[0])
+        if out != "ok":
+            ck.count("outcome %s %s" % (name.split("(")[0], out))
+        return out
+
+    def collect(self):
+        if self.w.render() != self.last:
+            self.chain = False
+        out, frame = self.run.collect(self.w, self.tie, "history collect")
+        self.ops.append("collect")
+        self.outcomes.append(out)
+        self.last = _safe(self.w.render)
+        return frame
+
+    # ---- sockets
+    def bind_ldl(self):
+        llc = self.w.llc
+        s = llc.socket(self.nfc.llcp.LOGICAL_DATA_LINK)
+        self.step("bind(ldl)", lambda: llc.bind(s), lambda: "bindldl:%d" % self.w.pos(s.addr))
+        if s.addr is not None:
+            self.ldls.append(s)
+
+    def bind_dlc(self, rw):
+        llc = self.w.llc
+        s = llc.socket(self.nfc.llcp.DATA_LINK_CONNECTION)
+        llc.setsockopt(s, self.nfc.llcp.SO_RCVBUF, rw)
+        self.step("bind(dlc)", lambda: llc.bind(s), lambda: "binddlc:%d:%d" % (self.w.pos(s.addr), s.recv_win))
+        return s if s.addr is not None else None
+
+    def connect(self, announced, rw, by_name=False):
+        """llc.connect() answered by CC(miu=announced, rw): the answer is waiting in the receive queue"""
+        rng, pdu, w = self.rng, self.pdu, self.w
+        s = self.bind_dlc(rng.randrange(1, 16))
+        if s is None:
+            return
+        if not self.peers:
+            return
+        peer = self.peers.pop()
+        s.recv_queue.append(pdu.ConnectionComplete(s.addr, peer, miu=announced, rw=rw))
+        w.conn[(s.addr, peer)] = min(announced, w.miu)      # what the peer announced, never more than its link MIU
+        dest = (b"urn:nfc:sn:" + bytes(rng.randrange(97, 123) for _ in range(rng.choice([3, 30])))) if by_name else peer
+
+        def opf():
+            a, j = w.sockpos(s)
+            c = s.send_queue[-1]
+            return "connected:%d:%d:%d:%d:%d:%d" % (a, j, announced, rw, len(c), c.dsap * 64 + c.ssap)
+        out = self.step("connect(dlc)", lambda: w.llc.connect(s, dest), opf, boundary=announced >= w.miu - 1)
+        if out == "ok":
+            self.dlcs.append(s)
+            self.check_conn_miu(s, announced, "connect")
+
+    def listen_accept(self, announced, rw):
+        rng, pdu, w = self.rng, self.pdu, self.w
+        if not self.listeners or rng.random() < 0.3:
+            s = self.bind_dlc(rng.randrange(1, 16))
+            if s is None:
+                return
+            out = self.step("listen(dlc)", lambda: w.llc.listen(s, 4), lambda: "listen:%d:%d" % w.sockpos(s))
+            if out != "ok":
+                return
+            self.listeners.append(s)
+        lsn = rng.choice(self.listeners)
+        if not self.peers:
+            return
+        peer = self.peers.pop()
+        try:
+            w.llc.dispatch(pdu.Connect(lsn.addr, peer, miu=announced, rw=rw))
+        except Exception as e:  # noqa
+            self.ck.fail("dispatch-raises-" + exc_name(e), "dispatch(CONNECT) raised %r" % (e,), {"state": _safe(w.render)})
+            self.broken = True
+            return
+        if not len(lsn.recv_queue):
+            return
+        w.conn[(lsn.addr, peer)] = min(announced, w.miu)
+        got = []
+        a0, j0 = w.sockpos(lsn)
+
+        def fn():
+            got.append(w.llc.accept(lsn))
+
+        def opf():
+            cc = lsn.send_queue[-1]
+            return "accepted:%d:%d:%d:%d:%d:%d" % (a0, j0, announced, rw, len(cc), cc.dsap * 64 + cc.ssap)
+        out = self.step("accept(dlc)", fn, opf, boundary=announced >= w.miu - 1)
+        if out == "ok" and got:
+            self.dlcs.append(got[0])
+            self.check_conn_miu(got[0], announced, "accept")
+
+    def stray(self):
+        """a bound connection-mode socket left in some other state (closed by the peer, shut down, connecting, ...)"""
+        s = self.bind_dlc(self.rng.randrange(1, 16))
+        if s is None:
+            return
+        s.state.value = self.rng.choice([0, 1, 3, 5, 6])
+        s.peer = self.peers.pop() if self.peers else None
+        self.strays.append(s)
+
+    def misuse(self):
+        """operations on sockets in the wrong state: refused without any effect on the queues"""
+        w, rng, pdu = self.w, self.rng, self.pdu
+        pool = self.dlcs + self.strays + self.listeners
+        if not pool:
+            return
+        s = rng.choice(pool)
+        what = rng.choice(["connect", "listen", "accept"])
+        if what == "connect" and s.state.CLOSED:
+            return              # would really connect (and wait for the answer)
+        if what == "listen" and s.state.CLOSED:
+            return
+        if what == "accept" and s.state.LISTEN:
+            return              # would wait for a CONNECT
+        a, j = w.sockpos(s)
+        if what == "connect":
+            self.step("connect(wrong state)", lambda: w.llc.connect(s, 20), lambda: "connected:%d:%d:128:1:2:0" % (a, j))
+        elif what == "listen":
+            self.step("listen(wrong state)", lambda: w.llc.listen(s, 2), lambda: "listen:%d:%d" % (a, j))
+        else:
+            self.step("accept(wrong state)", lambda: w.llc.accept(s) and None, lambda: "accepted:%d:%d:128:1:2:0" % (a, j))
+
+    def check_conn_miu(self, s, announced, via):
+        w = self.w
+        want = min(announced, w.miu)
+        if s.send_miu != want:
+            self.ck.fail("connection-miu-not-announced-miu", "after %s the connection MIU is %d, the peer announced %d on a link "
+                         "with MIU %d" % (via, s.send_miu, announced, w.miu), {"announced": announced, "link_miu": w.miu, "via": via})
+
+    # ---- data
+    def sendto(self, n):
+        w, rng = self.w, self.rng
+        s = rng.choice(self.ldls)
+        data = w.payload(n)
+        pid = data[0] * 40000 + data[1] * 200 + data[2] if n >= 3 else 0
+        dest = rng.randrange(2, 64)
+        out = self.step("sendto(%d)" % n, lambda: w.llc.sendto(s, data, dest, self.nfc.llcp.MSG_DONTWAIT),
+                        lambda: "sendto:%d:%d:%d:%d" % (w.sockpos(s) + (n, pid)), boundary=abs(n - w.miu) <= 1)
+        if out == "ok" and n > w.miu:
+            self.ck.fail("sendto-oversize-accepted", "sendto(%d octets) accepted at link MIU %d" % (n, w.miu), {"miu": w.miu, "n": n})
+        if out != "ok" and n <= w.miu and not self.broken:
+            self.ck.fail("sendto-refused", "sendto(%d octets) at link MIU %d -> %s" % (n, w.miu, out), {"miu": w.miu, "n": n})
+
+    def send(self, s, n, via):
+        w = self.w
+        data = w.payload(n)
+        pid = data[0] * 40000 + data[1] * 200 + data[2] if n >= 3 else 0
+        limit = w.conn.get((s.addr, s.peer))
+        fn = (lambda: w.llc.send(s, data, self.nfc.llcp.MSG_DONTWAIT)) if via == "send" else \
+            (lambda: w.llc.sendto(s, data, s.peer, self.nfc.llcp.MSG_DONTWAIT))
+        out = self.step("%s(%d)" % (via, n), fn, lambda: "send:%d:%d:%d:%d" % (w.sockpos(s) + (n, pid)),
+                        boundary=limit is not None and abs(n - limit) <= 1)
+        if limit is not None:
+            if out == "ok" and n > limit:
+                self.ck.fail("i-payload-exceeds-connection-miu", "llc.%s(%d octets) accepted on a connection whose peer announced "
+                             "MIU %d (link MIU %d)" % (via, n, limit, w.miu), {"link_miu": w.miu, "connection_miu": limit, "n": n, "via": via})
+            if s.state.ESTABLISHED and s.send_miu != limit:
+                self.ck.fail("connection-miu-overwritten", "llc.%s changed the connection MIU %d to %d" % (via, limit, s.send_miu),
+                             {"link_miu": w.miu, "connection_miu": limit, "via": via})
+
+    # ---- what the peer does
+    def peer_i(self, s):
+        """an I PDU arrives and the application reads it"""
+        w, pdu = self.w, self.pdu
+        if not s.state.ESTABLISHED or s.recv_window_slots == 0 or len(s.recv_queue) >= s.recv_buf:
+            return
+
+        data = b"in" if w.icv is None else FakeCipher(w.icv).encrypt(None, b"in")
+        read = self.rng.random() < 0.8
+
+        def fn():
+            w.llc.dispatch(pdu.Information(s.addr, s.peer, ns=s.recv_cnt, nr=s.send_ack, data=data))
+            if read and len(s.recv_queue) and s.recv_queue[0].name == "I":
+                w.llc.recv(s)
+        self.step("peer-I", fn, lambda: "setrecv:%d:%d:%d:%d:%d:%d:%d" % (
+            w.sockpos(s) + (s.recv_win, s.recv_cnt, s.recv_ack, s.recv_confs, 1 if s.mode.RECV_BUSY else 0)))
+
+    def peer_rr(self, s):
+        w, pdu = self.w, self.pdu
+        if not s.state.ESTABLISHED:
+            return
+        self.step("peer-RR", lambda: w.llc.dispatch(pdu.ReceiveReady(s.addr, s.peer, s.send_cnt)),
+                  lambda: "setsend:%d:%d:%d:%d:%d" % (w.sockpos(s) + (s.send_win or 0, s.send_cnt, s.send_ack)))
+
+    def busy(self, s):
+        w = self.w
+        v = self.rng.random() < 0.5
+        def fn():
+            w.llc.setsockopt(s, self.nfc.llcp.SO_RCVBSY, v)
+        self.step("setsockopt(RCVBSY)", fn,
+                  lambda: "setrecv:%d:%d:%d:%d:%d:%d:%d" % (
+                      w.sockpos(s) + (s.recv_win, s.recv_cnt, s.recv_ack, s.recv_confs, 1 if s.mode.RECV_BUSY else 0)))
+
+    def peer_sdreq(self, k):
+        """the peer asks for k service names: k answers become pending"""
+        w, pdu, rng = self.w, self.pdu, self.rng
+        reqs = [(rng.randrange(256), rng.choice([b"urn:nfc:sn:sdp", b"urn:nfc:sn:none", b"urn:nfc:sn:x"])) for _ in range(k)]
+        n0 = len(w.llc.sap[1].sdres)
+
+        def opf():
+            new = list(w.llc.sap[1].sdres)[n0:]
+            return ",".join("sdres:1:%d" % (tid * 256 + a) for tid, a in new) if new else "setsend:0:0:0:0:0"
+        before = w.render()
+        try:
+            w.llc.dispatch(pdu.ServiceNameLookup(1, 1, sdreq=reqs))
+            after = w.render()
+            op = opf()
+        except Exception as e:  # noqa
+            self.ck.fail("dispatch-raises-" + exc_name(e), "dispatch(SNL) raised %r" % (e,), {"state": before})
+            self.broken = True
+            return
+        if before != self.last:
+            self.chain = False
+        if op.startswith("sdres"):
+            self.run.req(self.tie, w, before, op, ",".join(["ok"] * k) + " # " + after)
+            self.ops.append(op)
+            self.outcomes.extend(["ok"] * k)
+            self.last = after
+            self.ck.case((before, op), False, "op peer-SNL")
+
+    def local_sdreq(self, ln):
+        """what resolve() does before it waits for the answer"""
+        w, rng = self.w, self.rng
+        tid = rng.randrange(256)
+        name = b"urn:nfc:sn:" + bytes(rng.randrange(97, 123) for _ in range(max(1, min(ln, 243))))
+        self.step("resolve", lambda: w.llc.sap[1].sdreq.append((tid, name)), lambda: "sdreq:1:%d:%d" % (tid, len(name)))
+
+    def peer_connect_unknown(self):
+        """CONNECT for a service nobody offers: DM from the service discovery SAP"""
+        w, pdu, rng = self.w, self.pdu, self.rng
+        ssap = rng.randrange(2, 64)
+        self.step("peer-CONNECT(unknown name)", lambda: w.llc.dispatch(pdu.Connect(1, ssap, sn=b"urn:nfc:sn:nobody")),
+                  lambda: "sddm:1:%d" % (ssap * 64 + 1))
+
+    def peer_connect_refused(self):
+        """CONNECT to a bound address without a listening socket: DM from that SAP"""
+        w, pdu, rng = self.w, self.pdu, self.rng
+        socks = [s for s in self.ldls + self.dlcs if s.addr is not None and s not in self.listeners]
+        if not socks:
+            return
+        s = rng.choice(socks)
+        if any(x.state.LISTEN for x in w.llc.sap[s.addr].sock_list if hasattr(x.state, "LISTEN") and isinstance(x, self.tco.DataLinkConnection)):
+            return
+        ssap = rng.randrange(2, 64)
+        self.step("peer-CONNECT(no listener)", lambda: w.llc.dispatch(pdu.Connect(s.addr, ssap)),
+                  lambda: "dm:%d:%d" % (w.pos(s.addr), ssap * 64 + s.addr))
+
+    # ---- the one-piece comparison
+    def finish(self):
+        if self.broken or not self.ops or not self.chain:
+            self.ck.count("histories not compared in one piece")
+            return
+        w = self.w
+        self.run.req("whole histories (run of all operations from the initial state) model vs real LogicalLinkController",
+                     w, self.initial, ",".join(self.ops), ",".join(self.outcomes) + " # " + w.render())
+
+
+def histories(run, mods, rng, n, steps):
+    for _ in range(n):
+        miu = rng.choice(MIUS) if rng.random() < 0.75 else rng.randrange(128, 2176)
+        agf = rng.random() < 0.8
+        icv = rng.choice([None, None, 4, 4, 4, 1, 16])
+        k = icv or 0
+        h = None
+        try:
+            h = History(run, mods, rng, miu, agf, icv)
+            for _ in range(rng.choice([1, 1, 2, 3])):
+                h.bind_ldl()
+            for _ in range(rng.choice([0, 1, 2, 3])):
+                announced = rng.choice([128, 128, miu - 1, miu, miu + 1, 2175, rng.randrange(128, 2176)])
+                if rng.random() < 0.6:
+                    h.connect(max(128, announced), rng.randrange(1, 16), by_name=rng.random() < 0.3)
+                else:
+                    h.listen_accept(max(128, announced), rng.randrange(1, 16))
+            if rng.random() < 0.4:
+                h.stray()
+            last = 0
+            for _ in range(steps):
+                if h.broken:
+                    break
+                r = rng.random()
+                if r > 0.985:
+                    h.misuse()
+                    continue
+                if r < 0.25 and h.ldls:
+                    c = rng.random()
+                    if c < 0.25:
+                        n1 = rng.choice([miu - 1, miu, miu + 1, miu + 50])
+                    elif c < 0.6:
+                        n1 = max(0, miu - last - rng.randrange(0, 24 + 2 * k))      # fills what the last message left
+                    else:
+                        n1 = rng.choice([0, 1, 2, 3, 10, 40, rng.randrange(0, miu + 1)])
+                    last = n1
+                    h.sendto(n1)
+                elif r < 0.5 and h.dlcs:
+                    s = rng.choice(h.dlcs if rng.random() < 0.9 or not (h.listeners + h.strays) else h.listeners + h.strays)
+                    cm = h.w.conn.get((s.addr, s.peer), miu)
+                    c = rng.random()
+                    if c < 0.3:
+                        n1 = rng.choice([cm - 1, cm, cm + 1, miu, miu + 1])
+                    elif c < 0.65:
+                        n1 = max(0, min(cm, miu - last - rng.randrange(0, 24 + 2 * k)))
+                    else:
+                        n1 = rng.choice([0, 1, 3, 10, 40, rng.randrange(0, cm + 1)])
+                    last = n1
+                    h.send(s, n1, rng.choice(["send", "send", "sendto"]))
+                elif r < 0.58 and h.dlcs:
+                    h.peer_i(rng.choice(h.dlcs))
+                elif r < 0.63 and h.dlcs:
+                    h.peer_rr(rng.choice(h.dlcs))
+                elif r < 0.66 and h.dlcs:
+                    h.busy(rng.choice(h.dlcs))
+                elif r < 0.72:
+                    h.peer_sdreq(rng.choice([1, 2, 5, miu // 4, miu // 4 + 1, 33]))
+                elif r < 0.76:
+                    h.local_sdreq(rng.choice([1, 10, 100, 243, miu - 3 - 11 - rng.randrange(0, 8)]))
+                elif r < 0.79:
+                    h.peer_connect_unknown()
+                elif r < 0.82:
+                    h.peer_connect_refused()
+                elif r < 0.84:
+                    announced = rng.choice([128, miu - 1, miu, miu + 1, 2175])
+                    if rng.random() < 0.5:
+                        h.connect(max(128, announced), rng.randrange(1, 16))
+                    else:
+                        h.listen_accept(max(128, announced), rng.randrange(1, 16))
+                else:
+                    h.collect()
+            for _ in range(30):
+                if h.broken or quiet(h.w.render()):
+                    break
+                if h.collect() is None:
+                    break
+            h.finish()
+        except Exception as e:  # noqa
+            run.ck.fail("history-raises-" + exc_name(e), "a history of socket operations raised %r" % (e,),
+                        {"miu": miu, "agf": agf, "icv_size": icv, "operations": h.ops[-10:] if h else [],
+                         "state": _safe(h.w.render) if h else None, "where": _where(e)})
+
+
+# ---------------------------------------------------------------------- EMSGSIZE checks of the public API
+def api_checks(ck, mods, rng):
+    nfc, llcmod, tco, pdu = mods
+    for miu in [128, 129, 133, 248, 2175] + [rng.randrange(128, 2176) for _ in range(20)]:
+        try:
+            _api_checks_at(ck, mods, rng, miu)
+        except Exception as e:  # noqa
+            ck.fail("api-check-raises-" + exc_name(e), "the sendto()/send() size checks raised %r at link MIU %d" % (e, miu), {"miu": miu})
+
+
+def _api_checks_at(ck, mods, rng, miu):
+    nfc, llcmod, tco, pdu = mods
+    llc = llcmod.LogicalLinkController(miu=248, sec=False)
+    llc.cfg["send-miu"] = miu
+    s = llc.socket(nfc.llcp.LOGICAL_DATA_LINK)
+    llc.bind(s)
+    for n in (miu - 1, miu, miu + 1, miu + 100):
+        try:
+            llc.sendto(s, bytes(n), 16, nfc.llcp.MSG_DONTWAIT)
+            ok = True
+        except nfc.llcp.Error as e:
+            ok = False
+            if e.errno != 90:
+                ck.fail("sendto-wrong-errno", "sendto(%d bytes) at MIU %d -> errno %d" % (n, miu, e.errno), {"miu": miu, "n": n})
+        ck.case(("sendto", miu, n), True, "api")
+        if ok != (n <= miu):
+            ck.fail("sendto-oversize-accepted" if ok else "sendto-refused", "sendto(%d bytes) at link MIU %d -> %s" % (n, miu, ok),
+                    {"miu": miu, "n": n})
+    # connection-mode socket through the controller API: the CONNECTION MIU (from CONNECT/CC) governs,
+    # not the link MIU
+    for cmiu in sorted({128, max(128, miu - 1), max(128, miu // 2)}):
+        c = llc.socket(nfc.llcp.DATA_LINK_CONNECTION)
+        llc.bind(c)
+        c.peer = 34
+        c.state.ESTABLISHED = True
+        c.send_win = 15
+        c.send_miu = cmiu
+        for via in ("send", "sendto"):
+            for n in (cmiu - 1, cmiu, cmiu + 1, miu, miu + 1):
+                c.send_cnt = c.send_ack = 0
+                c.send_queue.clear()
+                try:
+                    if via == "send":
+                        llc.send(c, bytes(n), nfc.llcp.MSG_DONTWAIT)
+                    else:
+                        llc.sendto(c, bytes(n), 34, nfc.llcp.MSG_DONTWAIT)
+                    ok = True
+                except nfc.llcp.Error:
+                    ok = False
+                ck.case(("llc." + via, miu, cmiu, n), True, "api")
+                if ok and n > cmiu:
+                    ck.fail("i-payload-exceeds-connection-miu", "llc.%s(%d octets) accepted on a connection with MIU %d (link MIU %d)"
+                            % (via, n, cmiu, miu), {"link_miu": miu, "connection_miu": cmiu, "n": n, "via": via})
+                if not ok and n <= cmiu:
+                    ck.fail("send-refused", "llc.%s(%d octets) refused on a connection with MIU %d" % (via, n, cmiu),
+                            {"link_miu": miu, "connection_miu": cmiu, "n": n})
+                if c.send_miu != cmiu:
+                    ck.fail("connection-miu-overwritten", "llc.%s changed the connection MIU %d to %d" % (via, cmiu, c.send_miu),
+                            {"link_miu": miu, "connection_miu": cmiu})
+                    c.send_miu = cmiu
+    d = tco.DataLinkConnection(recv_miu=128, recv_win=1)
+    d.bind(33)
+    d.peer = 34
+    d.state.ESTABLISHED = True
+    d.send_win = 15
+    d.send_miu = min(miu, rng.choice([128, miu]))
+    for n in (d.send_miu - 1, d.send_miu, d.send_miu + 1):
+        d.send_cnt = d.send_ack = 0
+        try:
+            d.send(bytes(n), nfc.llcp.MSG_DONTWAIT)
+            ok = True
+        except nfc.llcp.Error:
+            ok = False
+        ck.case(("send", d.send_miu, n), True, "api")
+        if ok != (n <= d.send_miu):
+            ck.fail("send-oversize-accepted" if ok else "send-refused", "send(%d bytes) at connection MIU %d -> %s" % (n, d.send_miu, ok),
+                    {"miu": d.send_miu, "n": n})
 
 
 def run(ck):
@@ -183,215 +1210,38 @@ def run(ck):
     import nfc.llcp.llc as llcmod
     import nfc.llcp.tco as tco
     import nfc.llcp.pdu as pdu
+    mods = (nfc, llcmod, tco, pdu)
     rng = ck.rng
-    ck.rule = ("a case = one call of collect() on a real LogicalLinkController whose SAP table / queues were filled "
-               "at random (service discovery answers+requests, DM PDUs, raw / connection-less / connection-mode "
-               "sockets, busy mode changes, pending acknowledgements; remote MIU 128..2175 incl. non multiples of 4; "
-               "aggregation on/off); non-trivial = a frame was returned that aggregates >= 2 PDUs or whose "
-               "information field is within 8 octets of the MIU; distinct by (state, miu, agf)")
+    ck.rule = ("a case = one step on a real LogicalLinkController: a call of collect() - on a SAP table / queues filled at "
+               "random (service discovery answers+requests, DM PDUs, raw / connection-less / connection-mode sockets in "
+               "every socket state, busy mode changes, pending acknowledgements, CONNECT / CC / DISC / FRMR / SYMM / PAX / "
+               "DPS PDUs), on the states of the aggregation budget sweeps (second PDU sized -7..+3 octets around what the "
+               "first left), or inside a history - or one socket operation of a history (bind, sendto, send, connect, "
+               "listen, accept, incoming I / RR / SNL / CONNECT PDUs, SO_RCVBSY); remote MIU 128..2175 incl. non multiples "
+               "of 4, aggregation on/off, secure data transfer off / on with ICV 0, 1, 4, 8, 16; non-trivial = a frame was "
+               "returned that aggregates >= 2 PDUs or whose information field is within 8 (+ICV) octets of the MIU, or an "
+               "operation with a size within 1 octet of its limit; distinct by (state, operation, miu, agf, icv)")
     ck.assumptions += [
-        "encryption (llcp/sec.py) is switched off; icv_size is a parameter of the model but only 0 is exercised",
+        "secure data transfer is exercised with a stub cipher (harness/sims/collect_sec.py: encrypt() appends icv_size marker "
+        "octets) in place of nfc.llcp.sec.CipherSuite1 (needs OpenSSL); only the length behaviour of the cipher matters to collect()",
+        "a single (not aggregated) encrypted UI / I PDU may carry MIU + ICV octets: collect() dequeues the first PDU with "
+        "icv_size=0 on purpose ('the receiver must accept them with complete MIU plus ICV size', llc.py); the bound proved and "
+        "checked for such a frame is MIU + ICV, for every other frame - every aggregate - MIU",
         "raw access point sockets bypass the limit by design and are excluded from the bound (as the property says)",
         "PDU lengths used by collect() equal the encoded lengths (property C11, len(pdu) == len(encode(pdu)) is re-checked here on every collected PDU)",
     ]
-    ck.trusted += ["hand-written Lean model NfcVerif.Model.Collect of collect()/dequeue()/sendack(), tied by differential runs",
-                   "harness/props/c10.py (state construction on real objects, rendering of queues)"]
+    ck.trusted += ["hand-written Lean models NfcVerif.Model.Collect (collect()/dequeue()/sendack()/encrypt()) and "
+                   "NfcVerif.Model.CollectOps (socket operations), tied by differential runs",
+                   "harness/props/c10.py (state construction on real objects, rendering of queues), harness/sims/collect_sec.py"]
     ck.lean("NfcVerif.Props.C10", THEOREMS)
     if ck.thorough:
         ck.leanchecker(["NfcVerif.Props.C10"])
     model = Model("drv_c10")
-
-    class Recorder(object):
-        """stands in for every service access point of the receiving controller"""
-        mode = 1
-
-        def __init__(self, log_):
-            self.log = log_
-
-        def enqueue(self, p):
-            self.log.append(p.encode())
-
-    def receive(rcvd, debug_on):
-        seen = []
-        rx = llcmod.LogicalLinkController(sec=False)
-        rx.sap = [Recorder(seen) for _ in range(64)]
-        rx.snl = {}
-        logger = logging.getLogger("nfc.llcp.llc")
-        old_level, old_disable = logger.level, logging.root.manager.disable
-        if debug_on:
-            logging.disable(logging.NOTSET)
-            logger.setLevel(logging.DEBUG)
-            if not logger.handlers:
-                logger.addHandler(logging.NullHandler())
-        try:
-            rx.dispatch(rcvd)
-        finally:
-            logger.setLevel(old_level)
-            logging.disable(old_disable)
-        return seen
-
-    nstates = 6000 if ck.thorough else 700
-    reqs = []
-    for n in range(nstates):
-        miu = rng.choice([128, 129, 130, 131, 132, 133, 135, 140, 200, 248, 255, 256, 500, 1021, 2175]) \
-            if rng.random() < 0.7 else rng.randrange(128, 2176)
-        agf = rng.random() < 0.75
-        profile = {"sd": 0.5, "saps": rng.choice([0, 1, 2, 3, 6, 12]), "raw": rng.choice([0, 0, 0, 1])}
-        llc, raw_used = build(rng, nfc, miu, agf, profile)
-        for rnd in range(40):
-            before = render(llc, tco, llcmod)
-            if before.replace("S;L=-", "").replace("D;0;-;-", "").strip("|") == "":
-                break
-            raw_before = "raw=" in before and any(
-                isinstance(s, tco.RawAccessPoint) and len(s.send_queue) for sap in llc.sap
-                if sap is not None and not isinstance(sap, llcmod.ServiceDiscovery) for s in sap.sock_list)
-            try:
-                frame = llc.collect()
-                exc = None
-            except Exception as e:  # noqa
-                frame, exc = None, e
-            after = render(llc, tco, llcmod)
-            if exc is not None:
-                ck.fail("collect-raises", "collect() raised %r" % exc, {"state": before, "miu": miu, "agf": agf})
-                break
-            if frame is None:
-                real = "none info=0 # " + after
-                subs = []
-            else:
-                subs = list(frame) if frame.name == "AGF" else [frame]
-                info = len(frame) - frame.header_size if frame.name != "AGF" else len(frame) - 2
-                real = ("agf " + pdus_str(subs) if frame.name == "AGF" else "single " + pdu_str(frame)) + \
-                    " info=%d # %s" % (info, after)
-                # ---- L3 oracle on the real code
-                enc = frame.encode()
-                for p in subs:
-                    if len(p) != len(p.encode()):
-                        ck.fail("pdu-len-differs-from-encoding", "%s: len %d, encoded %d" % (p.name, len(p), len(p.encode())),
-                                {"state": before})
-                infolen = len(enc) - (frame.header_size if frame.name != "AGF" else 2)
-                from_raw = raw_before and any(getattr(p, "_verif_raw", False) for p in subs)
-                # a raw socket contributed iff some raw queue shrank
-                raw_contrib = raw_before and before.count("raw=") and _raw_total(before) != _raw_total(after)
-                if infolen > miu and not raw_contrib:
-                    names = "+".join("%s(%d)" % (p.name, len(p)) for p in subs)
-                    ck.fail("frame-exceeds-miu:" + _shape(subs), "information field %d > MIU %d: %s" % (infolen, miu, names),
-                            {"state": before, "miu": miu, "agf": agf, "frame": enc.hex()})
-                if not raw_contrib:
-                    for p in subs:
-                        if p.name in ("UI", "I") and len(p.data) > miu:
-                            ck.fail("payload-exceeds-miu", "%s payload %d > MIU %d" % (p.name, len(p.data), miu), {"state": before})
-                try:
-                    dec = pdu.decode(enc)
-                    got = list(dec) if dec.name == "AGF" else [dec]
-                    if [x.encode() for x in got] != [x.encode() for x in subs]:
-                        ck.fail("aggregation-not-transparent", "decoded aggregate differs from collected PDUs",
-                                {"state": before, "frame": enc.hex()})
-                    # the receiving controller must hand exactly these PDUs, in this order, to its SAPs
-                    # (with debug logging switched on and off: logging must not consume anything)
-                    for debug_on in (True, False):
-                        seen = receive(pdu.decode(enc), debug_on)
-                        want = [x.encode() for x in subs if x.name != "SYMM"]
-                        if frame.name == "AGF" and seen != want:
-                            ck.fail("aggregate-not-dispatched-in-order",
-                                    "receiver dispatched %d of %d aggregated PDUs (debug logging %s)"
-                                    % (len(seen), len(want), "on" if debug_on else "off"),
-                                    {"state": before, "frame": enc.hex(), "debug_logging": debug_on})
-                            break
-                except pdu.Error as e:
-                    ck.fail("collected-frame-undecodable", "decode raised %r" % e, {"state": before, "frame": enc.hex()})
-            nontrivial = frame is not None and (len(subs) >= 2 or (len(frame) - 2) >= miu - 8)
-            line = "collect %d 0 %d %s" % (miu, 1 if agf else 0, before)
-            reqs.append((line, real))
-            ck.case((before, miu, agf), nontrivial, "agf" if agf else "noagf",
-                    sample={"request": line, "impl": real} if len(ck.samples) < 3 and nontrivial else None)
-            if frame is not None and frame.name == "AGF":
-                ck.count("aggregates")
-            if frame is None:
-                break
-        else:
-            ck.count("not drained in 40 rounds")
-    replies = model.ask_many([r[0] for r in reqs])
-    dis = 0
-    for (line, real), rep in zip(reqs, replies):
-        if rep != real:
-            dis += 1
-            ck.fail("tie:collect-model-vs-llc", "model %r, implementation %r" % (rep[:300], real[:300]),
-                    {"request": line, "model": rep, "impl": real})
-    ck.tie("collect()/dequeue()/sendack() model vs real LogicalLinkController", cases=len(reqs), disagreements=dis)
-
-    # ---- EMSGSIZE checks of the public API (ui_i_payload_bound)
-    for miu in [128, 129, 133, 248, 2175] + [rng.randrange(128, 2176) for _ in range(20)]:
-        llc = llcmod.LogicalLinkController(miu=248, sec=False)
-        llc.cfg["send-miu"] = miu
-        s = llc.socket(nfc.llcp.LOGICAL_DATA_LINK)
-        llc.bind(s)
-        for n in (miu - 1, miu, miu + 1, miu + 100):
-            try:
-                llc.sendto(s, bytes(n), 16, nfc.llcp.MSG_DONTWAIT)
-                ok = True
-            except nfc.llcp.Error as e:
-                ok = False
-                if e.errno != 90:
-                    ck.fail("sendto-wrong-errno", "sendto(%d bytes) at MIU %d -> errno %d" % (n, miu, e.errno), {"miu": miu, "n": n})
-            ck.case(("sendto", miu, n), True, "api")
-            if ok != (n <= miu):
-                ck.fail("sendto-oversize-accepted" if ok else "sendto-refused", "sendto(%d bytes) at link MIU %d -> %s" % (n, miu, ok),
-                        {"miu": miu, "n": n})
-        # connection-mode socket through the controller API: the CONNECTION MIU (from CONNECT/CC) governs,
-        # not the link MIU
-        for cmiu in sorted({128, max(128, miu - 1), max(128, miu // 2)}):
-            c = llc.socket(nfc.llcp.DATA_LINK_CONNECTION)
-            llc.bind(c)
-            c.peer = 34
-            c.state.ESTABLISHED = True
-            c.send_win = 15
-            c.send_miu = cmiu
-            for via in ("send", "sendto"):
-                for n in (cmiu - 1, cmiu, cmiu + 1, miu, miu + 1):
-                    c.send_cnt = c.send_ack = 0
-                    c.send_queue.clear()
-                    try:
-                        if via == "send":
-                            llc.send(c, bytes(n), nfc.llcp.MSG_DONTWAIT)
-                        else:
-                            llc.sendto(c, bytes(n), 34, nfc.llcp.MSG_DONTWAIT)
-                        ok = True
-                    except nfc.llcp.Error:
-                        ok = False
-                    ck.case(("llc." + via, miu, cmiu, n), True, "api")
-                    if ok and n > cmiu:
-                        ck.fail("i-payload-exceeds-connection-miu", "llc.%s(%d octets) accepted on a connection with MIU %d (link MIU %d)"
-                                % (via, n, cmiu, miu), {"link_miu": miu, "connection_miu": cmiu, "n": n, "via": via})
-                    if not ok and n <= cmiu:
-                        ck.fail("send-refused", "llc.%s(%d octets) refused on a connection with MIU %d" % (via, n, cmiu),
-                                {"link_miu": miu, "connection_miu": cmiu, "n": n})
-                    if c.send_miu != cmiu:
-                        ck.fail("connection-miu-overwritten", "llc.%s changed the connection MIU %d to %d" % (via, cmiu, c.send_miu),
-                                {"link_miu": miu, "connection_miu": cmiu})
-                        c.send_miu = cmiu
-        d = tco.DataLinkConnection(recv_miu=128, recv_win=1)
-        d.bind(33)
-        d.peer = 34
-        d.state.ESTABLISHED = True
-        d.send_win = 15
-        d.send_miu = min(miu, rng.choice([128, miu]))
-        for n in (d.send_miu - 1, d.send_miu, d.send_miu + 1):
-            d.send_cnt = d.send_ack = 0
-            try:
-                d.send(bytes(n), nfc.llcp.MSG_DONTWAIT)
-                ok = True
-            except nfc.llcp.Error as e:
-                ok = False
-            ck.case(("send", d.send_miu, n), True, "api")
-            if ok != (n <= d.send_miu):
-                ck.fail("send-oversize-accepted" if ok else "send-refused", "send(%d bytes) at connection MIU %d -> %s" % (n, d.send_miu, ok),
-                        {"miu": d.send_miu, "n": n})
-
-
-def _raw_total(state):
-    import re
-    return sum(0 if m == "-" else m.count(",") + 1 for m in re.findall(r"raw=([^;|]*)", state))
-
-
-def _shape(subs):
-    return "+".join(p.name for p in subs[:4])
+    r = Run(ck, mods)
+    random_states(r, mods, rng, 6000 if ck.thorough else 500)
+    sweep(r, mods, rng, ck.thorough)
+    sweep_tail(r, mods, rng, ck.thorough)
+    sweep_snl(r, mods, rng, ck.thorough)
+    histories(r, mods, rng, 1500 if ck.thorough else 120, 60 if ck.thorough else 40)
+    r.settle(model)
+    api_checks(ck, mods, rng)
